@@ -275,8 +275,10 @@ class Server(base_server.BaseServer):
                         self._log_error_once(f'{e} {sid}', 'bad-sid')
                         r = self._bad_request(f'{e} {sid}')
                     else:
-                        if self.transport(sid) != transport and \
-                                transport != upgrade_header:
+                        if (self.transport(sid) != transport and
+                                transport != upgrade_header) or \
+                                (upgrade_header == 'websocket' and
+                                 'websocket' not in self.transports):
                             self._log_error_once(
                                 f'Invalid transport for session {sid}',
                                 'bad-transport')
